@@ -585,6 +585,38 @@ def run_c19(case):
                 out.append(viol("C19", "weight-file", "min-loss-file-is-not-a-checked-step", "", checked=cands[:8]))
         elif w_int > 0 and N > 1:
             out.append(viol("C19", "weight-file", "missing:min_loss", ""))
+        # ---------------- two stages in one process with the SAME callback objects
+        # (resume in a notebook / Adam-then-second-stage workflow: trainer.fit twice, callbacks reused)
+        if case.get("two_stage", True) and N >= 2:
+            d2 = os.path.join(root, "two")
+            os.makedirs(d2)
+            sim2 = SimRNG(case["rng"], fault=None)
+            with sim2:
+                w2 = build_world(spec, spec["init"])
+                model2 = w2.train[0].module if hasattr(w2.train[0], "module") else None
+                cb_w = tp.utils.WeightSaveCallback(model2, d2, "w", check_interval=w_int,
+                                                   save_initial_model=case.get("save_initial", True),
+                                                   save_final_model=True)
+                cb_c = tp.utils.TrainerStateCheckpoint(d2, "state", check_interval=c_int)
+                N1 = max(1, N // 2)
+                tr1 = make_trainer(N1, [cb_c, cb_w], spec.get("trainer", {}))
+                tr1.fit(w2.solver)
+                mid = {k: v.detach().clone() for k, v in model2.state_dict().items()}
+                ck2 = os.path.join(d2, "state.ckpt")
+                tr2 = make_trainer(N, [cb_c, cb_w], spec.get("trainer", {}))
+                tr2.fit(w2.solver, ckpt_path=ck2 if os.path.exists(ck2) else None)
+                steps += N
+                end = {k: v.detach().clone() for k, v in model2.state_dict().items()}
+                stats["two_stage"] = 1
+                try:
+                    fm2 = build_world(spec, spec["init"] + 11).models[spec["conds"][0].get("model", 0)]
+                    fm2.load_state_dict(torch.load(os.path.join(d2, "w_final.pt")), strict=True)
+                    got = {k: v.clone() for k, v in fm2.state_dict().items()}
+                    if not same_sd(got, end):
+                        out.append(viol("C19", "weight-file", "final-file-after-second-fit-is-not-the-model-after-training", "",
+                                        equals_model_after_first_fit=bool(same_sd(got, mid))))
+                except Exception as ex:
+                    out.append(viol("C19", "weight-file", "does-not-load:final-after-second-fit", "", msg=str(ex)[:120]))
         # ---------------- crash schedules
         for sched_i, schedule in enumerate(case["crashes"]):
             d = os.path.join(root, "c%d" % sched_i)
@@ -595,7 +627,8 @@ def run_c19(case):
             init_seed = spec["init"]
             for leg, crash in enumerate(list(schedule) + [None]):
                 ck, first, extra = run(d, crash=tuple(crash) if crash else None)
-                res = run_solver(spec, case["rng"], None, extra_callbacks=extra, callbacks_first=first,
+                ws_leg = WeightSaverFactory(d)          # users keep their weight saver when they resume
+                res = run_solver(spec, case["rng"], None, extra_callbacks=extra + [ws_leg], callbacks_first=first,
                                  ckpt_path=ckpt, init_seed=init_seed, record=False)
                 steps += N
                 stats["fits"] = stats.get("fits", 0) + 1
@@ -631,6 +664,15 @@ def run_c19(case):
                     init_seed = spec["init"] + 100 + leg   # differently initialised objects at restart
             if ok_to_compare and res is not None and not res["crashed"]:
                 stats["resumes_compared"] = stats.get("resumes_compared", 0) + 1
+                pf = os.path.join(d, "w_final.pt")
+                if case.get("save_final", True) and hasattr(ws_leg, "after"):
+                    try:
+                        fm.load_state_dict(torch.load(pf), strict=True)
+                        if not same_sd({k: v.clone() for k, v in fm.state_dict().items()}, ws_leg.after):
+                            out.append(viol("C19", "weight-file", "final-file-of-resumed-run-is-not-the-model-after-training", "",
+                                            schedule=list(schedule)))
+                    except Exception as ex:
+                        out.append(viol("C19", "weight-file", "does-not-load:final-of-resumed-run", "", msg=str(ex)[:120]))
                 for name, a, b in zip(full["names"], res["final"], full["final"]):
                     if not same(a, b):
                         out.append(viol("C19", "resume", "learnable-state-differs-from-uninterrupted-run", "",
